@@ -39,6 +39,7 @@
 
 /* #include "misc.h" */
 #include "bpm.h"
+#include "kalign_verif.h"
 
 #define NODESIZE 16
 
@@ -136,6 +137,7 @@ float** d_estimation(struct msa* msa, int* samples, int num_samples,int pair)
                                 uint8_t* s2;
                                 int l1;
                                 int l2;
+                                KV_EVENT(KV_DM_CELL,i,j,0,NULL,NULL);
                                 s1 = s[i]->s;
                                 l1 = s[i]->len;
                                 s2 = s[samples[j]]->s;
